@@ -1,18 +1,25 @@
 """C17 -- Jaqal text, the builder API and Q-syntax build the same circuit."""
-from .. import sx, lib, meaning as M, monitors
-from .common import sig
+from .. import sx, gen, lib, meaning as M, monitors, minimise
+from .common import sig, prog_features, case_prog
+from . import builder_route
 
 RULE = ("programs in the common subset of the three front ends: lets (named / anonymous, int / float), one register (named / "
         "anonymous, literal or let size), gates with numeric, let and qubit arguments, nested sequential / parallel blocks, loops "
         "and subcircuits with literal or let-valued counts, bodies that do and do not begin with prepare_all / a subcircuit, and "
         "user-chosen names of the forms __r<k> and __c<k> for registers and lets. Each program is built four ways -- Jaqal text, "
         "S-expression build(), CircuitBuilder object API, Python Q-syntax -- and compared pairwise with ==, by generated text and "
-        "by the harness's reference meaning; auto-generated names are read back from the Q circuit. non-trivial = program has an "
-        "anonymous object or a nested block; distinct = program spec")
+        "by the harness's reference meaning; auto-generated names are read back from the Q circuit. Second family (full language "
+        "incl. macros, aliases, pulse imports; no Q-syntax): text vs build() vs CircuitBuilder used the documented way -- objects "
+        "built at once (the default of let/register/map/macro/loop) mixed at random with unevaluated=True, names or returned "
+        "objects as references, qubits as reg[i] objects or expressions; the circuits must be ==, print the same text, have the "
+        "program's meaning, and behave alike under expand_macros, fill_in_let, expand_subcircuits and the used-qubit analysis. "
+        "non-trivial = program has an anonymous object, a nested block or a macro; distinct = program spec / (program, choices)")
 ASSUMPTIONS = ["the auto-naming scheme is not prescribed: names are read back; only freshness and equality of the circuits are judged"]
 TIERS = {"quick": {"shards": 8, "budget_s": 40}, "thorough": {"shards": 16, "budget_s": 300}}
 REQUIRE = {"programs": 1500, "anonymous-let": 300, "anonymous-register": 300, "user-name-like-auto-name": 200,
-           "implicit-wrap-expected": 300, "no-wrap-expected": 300, "pairs-compared": 4000, "subcircuit-with-count": 100}
+           "implicit-wrap-expected": 300, "no-wrap-expected": 300, "pairs-compared": 4000, "subcircuit-with-count": 100,
+           "full:programs": 1500, "full:macro-eager": 300, "full:loop-eager": 100, "full:map-eager": 200, "full:behaviour-compared": 3000,
+           "full:eager-macro-calling-macro": 100}
 
 
 # ---------------------------------------------------------------------------------------
@@ -313,6 +320,134 @@ def judge(case):
     return "ok", fails, info
 
 
+def _behaviour(c):
+    """How a circuit behaves under the passes and analyses (value-level, independent of object identity)."""
+    out = {}
+    for nm, fn in (("expand_macros", lib.expand_macros), ("fill_in_let", lib.fill_in_let), ("expand_subcircuits", lib.expand_subcircuits)):
+        o = lib.outcome(fn, c)
+        if o[0] == "ok":
+            g = lib.outcome(lib.generate, o[1])
+            out[nm] = ("ok", g[1] if g[0] == "ok" else g[:2])
+        else:
+            out[nm] = (o[0], o[1] if o[0] == "exc" else "")
+    o = lib.outcome(lib.used_qubits, c)
+    out["used_qubits"] = ("ok", sorted((k, sorted(v)) for k, v in dict(o[1]).items())) if o[0] == "ok" else (o[0], o[1] if o[0] == "exc" else "")
+    return out
+
+
+def _decls(core):
+    """Lets, pulse imports, and for every register / alias the fundamental qubits it denotes (a
+    defaulted slice stop is a literal in a built circuit and symbolic in the model: compare by value)."""
+    ev = M.Evaluator(core, env={}, resolve=True)
+    regs = []
+    for n, r in core.regs.items():
+        regs.append((n, r[0], tuple(ev.elems(r, {})) if r[0] == "R" else ev.qubit(r[2], r[3], {})))
+    return (tuple(core.lets.items()), tuple(regs), tuple(core.usepulses))
+
+
+def judge_full(case):
+    prog = case_prog(case)
+    if not sx.legal_nesting(prog):
+        return "skipped:illegal-nesting", [], {}
+    text = sx.to_text(prog)
+    ot = lib.outcome(lib.parse, text)
+    if ot[0] != "ok":
+        return "skipped:input-rejected", [], {}
+    info = {"pairs": 0, "choices": [], "behaviour": 0}
+    fails = []
+    routes = {"text": ot, "sexpr": lib.outcome(lib.build, prog)}
+    for tag, seed in (("builder-plain", None), ("builder-mixed", case.get("bseed", 0))):
+        o = lib.outcome(builder_route.via_builder, prog, seed)
+        if o[0] == "ok":
+            c, ch = o[1]
+            routes[tag] = ("ok", c)
+            if seed is not None:
+                info["choices"] = sorted(set(ch))
+        else:
+            routes[tag] = o
+    mixed = "+".join(x for x in info["choices"] if x.endswith("eager"))
+    for name, o in routes.items():
+        if o[0] != "ok":
+            fails.append(("full:front-end-rejects:%s:%s" % (name, o[1]), {"error": o[2], "text": text, "choices": info["choices"]}))
+    good = [(n, o[1]) for n, o in routes.items() if o[0] == "ok"]
+    try:
+        km = M.core_from_sx(prog)
+        exp = (M.meaning(km, expand_macros=False), M.macro_meanings(km), _decls(km))
+    except (M.MeaningError, M.OracleError) as ex:
+        return "skipped:no-reference-meaning", fails, info
+    gen_texts = {}
+    for n, c in good:
+        try:
+            k = M.core_from_ir(c)
+            got = (M.meaning(k, expand_macros=False), M.macro_meanings(k), _decls(k))
+        except (M.OracleError, M.MeaningError) as ex:
+            fails.append(("full:unreadable-circuit:%s" % n, {"error": str(ex)[:200], "choices": info["choices"]}))
+            continue
+        if not M.tree_equal(exp, got):
+            fails.append(("full:meaning-differs-from-program:%s" % n, {"diff": M.first_diff(exp, got), "text": text, "choices": info["choices"]}))
+        g = lib.outcome(lib.generate, c)
+        gen_texts[n] = g[1] if g[0] == "ok" else repr(g[:3])
+    base = dict(good).get("text")
+    ref_beh = _behaviour(base)
+    for n, c in good:
+        if n == "text":
+            continue
+        info["pairs"] += 1
+        try:
+            eq = (c == base) and (base == c)
+        except Exception:
+            eq = False
+        if not eq:
+            fails.append(("full:circuits-unequal:text-vs-%s" % n, {"text": gen_texts.get("text"), n: gen_texts.get(n), "choices": info["choices"]}))
+            continue
+        if gen_texts.get(n) != gen_texts.get("text"):
+            fails.append(("full:generated-text-differs:text-vs-%s" % n, {"text": gen_texts.get("text"), n: gen_texts.get(n)}))
+            continue
+        beh = _behaviour(c)
+        info["behaviour"] += 1
+        for op in ref_beh:
+            if beh[op] != ref_beh[op]:
+                fails.append(("full:equal-circuits-behave-differently:%s:%s" % (op, n), {"program": text, "text-route": ref_beh[op], n: beh[op], "choices": info["choices"]}))
+                break
+    return "ok", fails, info
+
+
+def _clauses_full(case):
+    return {f[0] for f in judge_full(case)[1]}
+
+
+def process_full(ctx, case, seen):
+    rec = ctx.rec
+    prog = case_prog(case)
+    st, fails, info = judge_full(case)
+    macros = [s for s in prog[1:] if s[0] == "macro"]
+    rec.case(["full", prog, case.get("bseed")], nontrivial=bool(macros))
+    if st != "ok":
+        rec.count("full:" + st)
+        return
+    rec.count("full:programs")
+    rec.count("pairs-compared", info["pairs"])
+    rec.count("full:behaviour-compared", info["behaviour"])
+    for ch in info["choices"]:
+        rec.count("full:" + ch)
+    names = {m[1] for m in macros}
+    if "macro-eager" in info["choices"] and any(x[0] == "gate" and x[1] in names for m in macros for x in sx.walk(m[-1])):
+        rec.count("full:eager-macro-calling-macro")
+    for clause, detail in fails:
+        key = clause
+        seen[key] = seen.get(key, 0) + 1
+        if seen[key] > 3:
+            rec.count("unminimised-repeat:" + clause)
+            continue
+        base = {k: v for k, v in case.items() if k != "prog"}
+        small = minimise.minimise(prog, lambda p: clause in _clauses_full(dict(base, prog=p)), budget=150)
+        small_case = dict(base, prog=small)
+        st2, f2, info2 = judge_full(small_case)
+        d2 = [x for x in f2 if x[0] == clause]
+        feats = {x for x in info2.get("choices", []) if x.endswith("eager")}
+        rec.violation(sig("C17", clause, feats), d2[0][1] if d2 else detail, small_case)
+
+
 def process(ctx, case):
     rec = ctx.rec
     spec = case["spec"]
@@ -345,16 +480,27 @@ def shard(ctx):
     monitors.install_contracts()
     n = ctx.scale(30000, 100000)
     i = 0
+    seen = {}
     while i < n and not rec.expired():
         i += 1
         spec = gen_spec(ctx.rng)
         process(ctx, {"spec": spec})
         if i <= 3:
             rec.sample(spec)
+        if i % 4 == 0:
+            rng = ctx.rng
+            g = gen.ProgGen(rng, p_hostile_names=0.0, max_depth=rng.choice([2, 3]), wild_numbers=False, macro_sub=rng.random() < 0.5,
+                            n_macros=(1, 4), p_usepulses=0.2)
+            process_full(ctx, {"prog": g.program(), "bseed": rng.randrange(1 << 30)}, seen)
     monitors.report_contracts(rec)
 
 
 def replay(ctx, case):
+    if "prog" in case:
+        st, fails, info = judge_full(case)
+        for clause, detail in fails:
+            ctx.rec.violation(sig("C17", clause, {x for x in info.get("choices", []) if x.endswith("eager")}), detail, case)
+        return
     st, fails, info = judge(case)
     for clause, detail in fails:
         ctx.rec.violation(sig("C17", clause), detail, case)
